@@ -1,5 +1,7 @@
 package main
 
+import "os"
+
 func c(args ...string) []string { return args }
 
 func th(cmds ...[]string) [][]string { return cmds }
@@ -82,6 +84,8 @@ func allScenarios() []*Scenario {
 	ps("two-publishers", []string{"c1", "", ""}, th(c("SUBSCRIBE", "ch")), th(c("PUBLISH", "ch", "a1"), c("PUBLISH", "ch", "a2")), th(c("PUBLISH", "ch", "b1")))
 	ps("payloads", []string{"c1", ""}, th(c("SUBSCRIBE", "ch")), th(c("PUBLISH", "ch", ""), c("PUBLISH", "ch", "a\r\nb")))
 	ps("sub-sub-cancel-pub", []string{"c1", "c2", "", ""}, th(c("SUBSCRIBE", "ch")), th(c("SUBSCRIBE", "ch")), th(c("@cancel", "c2")), th(c("PUBLISH", "ch", "m1")))
+	tier := os.Getenv("VERIF_TIER")
+	s = append(s, genPairScenarios(tier)...)
 	scenarioCache = s
 	return s
 }
